@@ -129,6 +129,9 @@ pub fn gen_len_fat(rng: &mut Rng, big: u64, fat: u64) -> u32 {
 pub fn gen_len(rng: &mut Rng, big: u64) -> u32 {
     // `big` = how many in 100 values are overflow-sized
     if rng.below(100) < big {
+        // rarely a value of more than a megabyte: the first pages of its chain are filled with page
+        // numbers only (1023 per page), 4.4 MB needs page numbers in a second page
+        if rng.chance(1, 40) { return *rng.pick(&[1_099_732u32, 1_099_733, 1_300_000, 4_400_000]); }
         *rng.pick(&[1333u32, 1334, 2000, 4092, 4093, 4096, 8184, 8185, 20000, 15 * 4092 - 1, 15 * 4092, 15 * 4092 + 1, 65536, 65537, 100_000])
     } else {
         *rng.pick(&[0u32, 1, 4, 8, 9, 32, 33, 64, 100, 200, 500, 1000, 1331, 1332])
